@@ -75,6 +75,7 @@ func cmdFn(args []string) int {
 	keep := fs.String("keep", "", "directory to keep smt files")
 	dump := fs.Bool("ssa", false, "dump SSA")
 	inst := fs.String("instance", "", "bounded instance name")
+	sweep := fs.Bool("sweep", false, "zero-annotation no-panic sweep: functions without a contract get {nopanic own, modifies *}")
 	pk := fs.String("pkgs", "", "comma separated package dirs (default all)")
 	fs.Parse(args)
 	dirs := allPkgDirs()
@@ -99,6 +100,9 @@ func cmdFn(args []string) int {
 			if fn := s.fns[key]; fn != nil {
 				fn.WriteTo(os.Stdout)
 			}
+		}
+		if *sweep && s.cs.Fns[key] == nil {
+			s.cs.Fns[key] = &FnContract{Key: key, NoPanic: true, NoPanicOwn: true, ModAll: true, HasMod: true, Loops: map[int]*LoopSpec{}, Sweep: true}
 		}
 		tx, err := s.verifyFnInstance(key, *inst)
 		if err != nil {
